@@ -89,10 +89,11 @@ Finish(b) ==
                    /\ res' = [paramsAt |-> b, nllAt |-> b, names |-> "all"] /\ pc' = "returned"
               ELSE /\ UNCHANGED <<modelAt, installed>> /\ res' = NoRes /\ pc' = "raised"   \* vm.set_var does not exist
          [] meth = "iminuit" ->
-              \* result = free names with m.values, m.fval; HESSE evaluates further points afterwards
+              \* m.values, m.fval; HESSE evaluates further points afterwards; the repaired code then puts
+              \* the model at m.values and lists every parameter
               /\ modelAt' = IF MinuitSyncs THEN b ELSE modelAt
               /\ UNCHANGED installed
-              /\ res' = [paramsAt |-> b, nllAt |-> b, names |-> "free"] /\ pc' = "returned"
+              /\ res' = [paramsAt |-> b, nllAt |-> b, names |-> IF MinuitSyncs THEN "all" ELSE "free"] /\ pc' = "returned"
     /\ UNCHANGED <<meth, stop, prev, nfit, evals, inside, saved, fresh>>
 
 \* LargeNumberError raised by the callback after at least one evaluation: except_result
@@ -110,7 +111,7 @@ Save(viaResult) ==
 Load ==
     /\ saved # NoSave /\ fresh = -1
     \* names not listed in the file keep the value of the configuration: fixed parameters only
-    /\ fresh' = saved.at
+    /\ fresh' = IF saved.names = "all" THEN saved.at ELSE -2     \* -2: some unlisted value of the fresh model
     /\ UNCHANGED <<pc, meth, stop, prev, nfit, evals, modelAt, inside, installed, res, saved>>
 
 Next ==
